@@ -18,6 +18,7 @@ type ValCfg struct {
 	// ForceStrLen >= 0 fixes the length of depth-0 strings and binaries.
 	ForceStrLen int
 	Holder      bool // fill unknown-field holders with well-formed unknown fields
+	HolderAlways bool // ... in every struct that has a holder, not just in a third of them
 }
 
 func DefaultValCfg() *ValCfg {
@@ -97,7 +98,7 @@ func Fill(r *Rand, s *schema.Struct, v reflect.Value, c *ValCfg, depth int) {
 		fv := v.Field(f.Index)
 		fv.Set(Value(r, f.T, c, f.Req == schema.Optional, depth))
 	}
-	if s.HasUnknown && c.Holder && r.Chance(1, 3) {
+	if s.HasUnknown && c.Holder && (c.HolderAlways || r.Chance(1, 3)) {
 		ref.SetHolder(s, v, UnknownFields(r, s, 1+r.Intn(3)))
 	}
 }
